@@ -1,3 +1,4 @@
+import threading
 from datetime import datetime
 from itertools import count
 try:
@@ -231,12 +232,19 @@ hs_condOr = (hs_condAnd + ZeroOrMore(Literal("or") + hs_condAnd)).setParseAction
 hs_filter <<= hs_condOr
 
 
+# The grammar objects are shared by every caller and pyparsing works out
+# things about them lazily on first use (such as how many arguments a parse
+# action takes): only one thread at a time may parse with them.
+_parse_lock = threading.Lock()
+
+
 def parse_filter(filter):
     '''
     Return an AST tree of filter.
     Can be used to generate other language (SQL, etc.)
     '''
-    return FilterAST(hs_filter.parseString(filter, parseAll=True)[0])
+    with _parse_lock:
+        return FilterAST(hs_filter.parseString(filter, parseAll=True)[0])
 
 
 ## --- Generate python to apply filter
